@@ -972,6 +972,156 @@ func (x *c08) race(op C08Op) error {
 	return x.after(what, nil, m)
 }
 
+// nest runs one RPC (op.Race.Race, "inner") on a second stream at exactly the
+// moment the host is waiting for the renter's second message of a multi-round
+// RPC (op.Race, "outer") on the SAME contract; both are built by the renter
+// from the same committed revision. The interleaving is forced by the harness
+// (rhpx.Tamper.AfterFirstResponse), not by timing. While the outer RPC holds
+// the contract the inner one must be refused or serialised: at most one of
+// the two may commit, the host must report success for exactly what it
+// committed, and a committed renewal must be built from the host's latest
+// committed revision.
+func (x *c08) nest(op C08Op) error {
+	if op.Race == nil || op.Race.Race == nil {
+		return nil
+	}
+	m := x.live(op.C)
+	prices := x.Prices
+	type part struct {
+		kind, what string
+		renewal    bool
+		e          exchange
+		exp        expectation
+		args       rhpx.RenewArgs
+		res        rhpx.Result
+		ran        bool
+	}
+	build := func(o C08Op) (*part, error) {
+		o.Corrupt, o.C = "", op.C
+		p := &part{kind: o.Op}
+		switch o.Op {
+		case "renew", "refresh-full", "refresh-partial":
+			p.renewal = true
+			p.args = rhpx.RenewArgs{Kind: o.Op, Allowance: amount(o.Alw).Add(types.Siacoins(5)), Collateral: amount(o.Col).Add(types.Siacoins(2)), ProofHeight: m.Rev.ProofHeight + 10}
+			p.what = fmt.Sprintf("%s (+%v / +%v)", o.Op, p.args.Allowance, p.args.Collateral)
+		default:
+			e, err := x.prepare(o, m)
+			if err != nil {
+				return nil, err
+			}
+			exp, derr := e.expect()
+			if derr != nil || e.noop {
+				return nil, nil
+			}
+			p.e, p.exp, p.what = e, exp, e.kind+": "+e.what
+		}
+		return p, nil
+	}
+	outer, err := build(*op.Race)
+	if err != nil {
+		return err
+	}
+	inner, err := build(*op.Race.Race)
+	if err != nil {
+		return err
+	}
+	if outer == nil || inner == nil || !(outer.renewal || twoRoundC08(outer.kind)) {
+		x.cs.Class("nest-skipped")
+		return nil
+	}
+	run := func(p *part, t *rhpx.Tamper) {
+		p.ran = true
+		if p.renewal {
+			p.res = x.R.Renew(m.view(), prices, p.args, rhpx.Script{}, t).Result
+		} else {
+			p.res, _, _ = p.e.run(t)
+		}
+	}
+	what := fmt.Sprintf("{%s} issued while the host waits for the renter's signature of {%s}, both built on revision %d", inner.what, outer.what, m.Rev.RevisionNumber)
+	before := x.snapshot()
+	logFrom := x.H.Log.Len()
+	run(outer, &rhpx.Tamper{AfterFirstResponse: func() { run(inner, nil) }})
+	if !x.H.Client.WaitIdle(rhpx.Watchdog) || outer.res.Infra != nil || inner.res.Infra != nil {
+		x.cs.Inconclusive("watchdog")
+		return errInconclusive
+	}
+	x.cs.Classf("nest:%s-inside-%s", inner.kind, outer.kind)
+	if !inner.ran {
+		x.cs.Class("nest-outer-refused-at-once")
+	}
+	calls := x.H.Log.Since(logFrom)
+	var committed []string
+	locks := 0
+	for _, c := range calls {
+		if (commitOps[c.Op] || c.Op == "RenewV2Contract" || c.Op == "AddV2Contract") && !c.Failed() {
+			committed = append(committed, c.Op)
+		}
+		if c.Op == "LockV2Contract" && !c.Failed() {
+			locks++
+		}
+		if c.Op == "Unlock" {
+			locks--
+		}
+	}
+	if locks != 0 {
+		return fmt.Errorf("%s: %d contract lock(s) still held afterwards", what, locks)
+	}
+	if len(committed) > 1 {
+		return fmt.Errorf("%s: the host committed both (%v; results outer %v, inner %v): RPCs on one contract were not serialised, the later commit was derived from a revision that was no longer the latest", what, committed, outer.res, inner.res)
+	}
+	done := 0
+	var winner *part
+	for _, p := range []*part{outer, inner} {
+		if p.res.Done {
+			done++
+			winner = p
+		}
+	}
+	if done != len(committed) {
+		return fmt.Errorf("%s: the host reported success for %d RPC(s) but committed %v (results outer %v, inner %v)", what, done, committed, outer.res, inner.res)
+	}
+	if winner == nil {
+		if !outer.renewal && outer.e.mustOK {
+			return fmt.Errorf("%s: neither was served although the outer RPC is honest and affordable (results outer %v, inner %v)", what, outer.res, inner.res)
+		}
+		x.cs.Class("nest-none-committed")
+		return x.after(what+" -> none committed", &before, nil)
+	}
+	if winner == outer {
+		x.cs.Class("nest-outer-committed-inner-refused")
+	} else {
+		x.cs.Class("nest-inner-committed-outer-refused")
+	}
+	if !winner.renewal {
+		if err := x.verifyCommit(what, m, logFrom, winner.exp); err != nil {
+			return err
+		}
+		return x.after(what, nil, m)
+	}
+	nm, err := x.verifyRenewal(what, m, winner.kind, winner.args, prices, calls)
+	if err != nil {
+		return err
+	}
+	if err := x.H.Mine(types.VoidAddress, 1); err != nil {
+		return err
+	}
+	if _, fce, err := x.H.Contractor.V2FileContractElement(nm.ID); err != nil {
+		return fmt.Errorf("%s: the renewal did not confirm: %v", what, err)
+	} else if !reflect.DeepEqual(fce.V2FileContract, nm.Rev) {
+		return fmt.Errorf("%s: the confirmed contract differs from the one handed to the contractor", what)
+	}
+	x.cs.Class("renewal-committed")
+	return x.after(what, nil, nil)
+}
+
+func twoRoundC08(kind string) bool {
+	switch kind {
+	case "append", "free", "repl-acct", "repl-pool":
+		return true
+	}
+	return false
+}
+
 func (x *c08) step(op C08Op) error {
 	switch op.Op {
 	case "mine":
@@ -992,6 +1142,8 @@ func (x *c08) step(op C08Op) error {
 		return x.renew(op)
 	case "race":
 		return x.race(op)
+	case "nest":
+		return x.nest(op)
 	}
 	return x.rpc(op)
 }
@@ -1035,7 +1187,7 @@ func runC08(c C08Case, cs *kit.CaseStats) error {
 
 func genC08Op(t *rapid.T, nc int, allowRace bool) C08Op {
 	op := C08Op{C: rapid.IntRange(0, nc-1).Draw(t, "c")}
-	k := rapid.IntRange(0, 31).Draw(t, "op")
+	k := rapid.IntRange(0, 34).Draw(t, "op")
 	switch {
 	case k < 6:
 		op.Op = "fund"
@@ -1078,12 +1230,44 @@ func genC08Op(t *rapid.T, nc int, allowRace bool) C08Op {
 	case k < 30:
 		op.Op = "mine"
 		op.Len = rapid.IntRange(0, 1).Draw(t, "refetch")
+	case k >= 32:
+		if !allowRace {
+			op.Op = "latest"
+			return op
+		}
+		// outer multi-round RPC with another RPC forced between its rounds
+		op.Op = "nest"
+		mk := func(kinds []string, label string) C08Op {
+			p := C08Op{Op: rapid.SampledFrom(kinds).Draw(t, label)}
+			switch p.Op {
+			case "fund":
+				p.Dep = []int{rapid.IntRange(0, 2).Draw(t, "nacct"), rapid.IntRange(0, len(amountTable)-1).Draw(t, "namt")}
+			case "repl-acct", "repl-pool":
+				p.Target = rapid.IntRange(2, len(amountTable)-1).Draw(t, "ntarget")
+				p.Keys = []int{rapid.IntRange(0, 2).Draw(t, "nkey")}
+			case "append":
+				p.Roots = []int{rapid.IntRange(0, rhpx.PoolSize-1).Draw(t, "nroot")}
+			case "free":
+				p.Idx = []int{rapid.IntRange(0, 7).Draw(t, "nidx")}
+			case "roots":
+				p.Off, p.Len = rapid.IntRange(0, 7).Draw(t, "noff"), rapid.IntRange(0, 7).Draw(t, "nlen")
+			default:
+				p.Alw, p.Col = rapid.IntRange(0, len(amountTable)-1).Draw(t, "nalw"), rapid.IntRange(0, len(amountTable)-1).Draw(t, "ncol")
+			}
+			return p
+		}
+		outer := mk([]string{"renew", "renew", "refresh-full", "refresh-partial", "append", "free", "repl-acct", "repl-pool"}, "outer")
+		inner := mk([]string{"fund", "fund", "repl-acct", "repl-pool", "append", "free", "roots", "renew", "refresh-full", "refresh-partial"}, "inner")
+		outer.Race = &inner
+		op.Race = &outer
+		return op
 	default:
 		if !allowRace {
 			op.Op = "latest"
 			return op
 		}
 		op.Op = "race"
+
 		n := 2
 		if rapid.IntRange(0, 2).Draw(t, "three") == 0 {
 			n = 3
@@ -1136,11 +1320,11 @@ func genC08(t *rapid.T) C08Case {
 
 var c08Prop = kit.Prop[C08Case]{
 	ID:   "C08",
-	Rule: "sequences (2..20, thorough 2..40) of fund, replenish accounts/pools, append, free, sector-roots, latest-revision, renew, refresh (full/partial), mine and 2-3-way races of honest RPCs on 1-2 contracts against the real rhp4.Server, each RPC honest or with exactly one corruption (challenge: garbage / zero / other key / number -1 / +1 / replayed; renter signature: garbage / zero / other key / over another amount, root or number / replayed; replayed request; price table signed by another key / expired / altered; request for another contract; out-of-range indices, offsets, lengths; zero, missing or overflowing deposits and targets; renewal parameters out of bounds), the rest of the exchange carried on honestly. Oracle over the recorded Contractor calls: every committed revision equals core's ReviseFor*/Renew*/Refresh* applied by the harness to the previous revision and the arguments it sent, is doubly signed, monotone and value conserving; corrupted or underivable requests change nothing and trigger no mutating call; the latest revision validates under core as a revision of the on-chain element. Non-trivial = >= 2 committed revisions and >= 1 rejected corrupted/replayed request in one sequence; distinct by hash of the case.",
+	Rule: "sequences (2..20, thorough 2..40) of fund, replenish accounts/pools, append, free, sector-roots, latest-revision, renew, refresh (full/partial), mine, 2-3-way races of honest RPCs and forced interleavings (a second RPC on the same contract issued exactly while the host waits for the second renter message of a renew, refresh, append, free or replenish) on 1-2 contracts against the real rhp4.Server, each RPC honest or with exactly one corruption (challenge: garbage / zero / other key / number -1 / +1 / replayed; renter signature: garbage / zero / other key / over another amount, root or number / replayed; replayed request; price table signed by another key / expired / altered; request for another contract; out-of-range indices, offsets, lengths; zero, missing or overflowing deposits and targets; renewal parameters out of bounds), the rest of the exchange carried on honestly. Oracle over the recorded Contractor calls: every committed revision equals core's ReviseFor*/Renew*/Refresh* applied by the harness to the previous revision and the arguments it sent, is doubly signed, monotone and value conserving; corrupted or underivable requests change nothing and trigger no mutating call; the latest revision validates under core as a revision of the on-chain element. Non-trivial = >= 2 committed revisions and >= 1 rejected corrupted/replayed request in one sequence; distinct by hash of the case.",
 	Assumptions: []string{
 		"host = rhp4.Server over the repository's reference EphemeralContractor (which itself re-checks signatures and revision numbers) on the all-v2 test network, in-memory transport",
 		"expired price tables are produced by signing a table with a past ValidUntil with the host key (the harness holds it); no sleeping",
-		"races: rapid chooses the two RPCs, the Go runtime the interleaving",
+		"races: rapid chooses the RPCs, the Go runtime the interleaving; nested pairs: the harness forces the interleaving point (between the first host response and the second renter message), no timing involved",
 		"core (ReviseFor*, RenewContract/Refresh*, price functions, signature hashes, ValidateV2Transaction) is the trusted base",
 	},
 	Gen: genC08,
